@@ -2,7 +2,10 @@
 
 package raft
 
-import "time"
+import (
+	"fmt"
+	"time"
+)
 
 // Scenario "elect" (C01): elections under every interleaving of timeouts,
 // vote requests/replies, first heartbeats, step-downs, disconnect
@@ -56,11 +59,25 @@ var (
 	electSeedStepdown = []string{"T:1", "run", "block:1:2", "block:1:3", "runnodc", "heal:1:2", "heal:1:3"}
 )
 
+// electSeedRevote: a voter between two candidates ("a voter restarting between two candidates"): n1 (candidate of
+// term 2) learnt term 3 from the refusal of candidate c and holds no vote in it; c is candidate of term 3 with its
+// request to n1 in flight; the third node (cut off from c, and from n1 until now) is candidate of term 2, one
+// timeout away from term 3; all stale requests have been answered.  c = 3 makes the candidate's id equal the term.
+func electSeedRevote(c int) []string {
+	o := 5 - c
+	ci := c - 1
+	return []string{"block:2:3", fmt.Sprintf("block:1:%d", o), "T:1", fmt.Sprintf("T:%d", o), fmt.Sprintf("T:%d", c), fmt.Sprintf("T:%d", c), fmt.Sprintf("heal:1:%d", o),
+		fmt.Sprintf(`ev:{"k":"D","n":0,"c":"%d>0#0"}`, ci), fmt.Sprintf(`ev:{"k":"R","n":%d,"c":"%d>0#0"}`, ci, ci),
+		fmt.Sprintf(`ev:{"k":"D","n":%d,"c":"0>%d#0"}`, ci, ci), fmt.Sprintf(`ev:{"k":"R","n":0,"c":"0>%d#0"}`, ci)}
+}
+
 func init() {
 	simScenarios["elect"] = scenElect([]uint64{1, 2, 3}, nil, 3, 2, 0)
 	simScenarios["elect-stepdown"] = scenElectSeed("stepdown", electSeedStepdown, 4, 2, false)
 	simScenarios["elect-leader"] = scenElectSeed("leader", electSeedLeader, 4, 2, false)
 	simScenarios["elect-stepdown-votesonly"] = scenElectVotesOnly("stepdown", electSeedStepdown, 4, 3)
+	simScenarios["elect-revote-votesonly"] = scenElectVotesOnly("revote", electSeedRevote(2), 4, 3)
+	simScenarios["elect-revote3-votesonly"] = scenElectVotesOnly("revote3", electSeedRevote(3), 4, 3)
 	simScenarios["elect-longlog-votesonly"] = scenElectVotesOnly("longlog", electSeedLongLog, 5, 3)
 	spec := &simCheckSpec{
 		Prop:    "C01",
@@ -68,6 +85,8 @@ func init() {
 		Scenarios: func(tier string) []*simScenario {
 			if tier == "thorough" {
 				return []*simScenario{
+					scenElectVotesOnly("revote", electSeedRevote(2), 4, 4),
+					scenElectVotesOnly("revote3", electSeedRevote(3), 4, 4),
 					scenElectSeed("stepdown", electSeedStepdown, 4, 3, false),
 					scenElectSeed("leader", electSeedLeader, 4, 3, false),
 					scenElectSeed("initial", nil, 4, 5, true),
@@ -77,6 +96,8 @@ func init() {
 				}
 			}
 			return []*simScenario{
+				scenElectVotesOnly("revote", electSeedRevote(2), 4, 3),
+				scenElectVotesOnly("revote3", electSeedRevote(3), 4, 3),
 				scenElectSeed("initial", []string{"T:1"}, 3, 2, false), // by symmetry the first timeout is at n1
 				scenElectSeed("stepdown", electSeedStepdown, 4, 2, false),
 				scenElectVotesOnly("stepdown", electSeedStepdown, 4, 3),
